@@ -6,7 +6,7 @@ function body is enumerated (no bound other than loops, which need a side-car in
 Callees are executed from their real bodies unless the contract registers an override (modular use of a callee contract,
 or an assumed contract for an external library).
 """
-import ast, itertools, enum
+import ast, itertools, enum, os
 import z3
 from .values import *
 from .loader import Source, FunctionMissing, is_property, is_classmethod
@@ -63,13 +63,15 @@ class LoopSpec:
 
 
 class Engine:
-    def __init__(self, source=None, feas_timeout_ms=2000, max_paths=20000):
+    def __init__(self, source=None, feas_timeout_ms=2000, max_paths=20000, max_seconds=None):
         self.src = source or Source()
         self.overrides = {}          # qualname -> f(engine, recv, args, kwargs)
         self.loop_specs = {}         # (qualname, 'While'|'For', ordinal) -> LoopSpec
         self.merge_ifs = False
         self.opaque_slice = None     # hook: slice of a value of uninterpreted sort (vectors in _solve)
         self.feas_timeout_ms, self.max_paths = feas_timeout_ms, max_paths
+        # wall-clock budget of one explore() call: a unit whose path space explodes on some code shape becomes undecided, not a hang
+        self.max_seconds = max_seconds if max_seconds is not None else float(os.environ.get("PYVC_EXPLORE_BUDGET_S", "150"))
         self._seen_obl = set()
         self.obligations = []        # filled by oblige() during exploration (loop obligations) and by contracts
         self.np = self._make_np()
@@ -89,9 +91,13 @@ class Engine:
     def explore(self, thunk):
         """thunk(engine) runs the unit from a fresh initial state.  Returns the list of Paths."""
         results, self._stack = [], [[]]
+        import time as _time
+        t_end = _time.time() + self.max_seconds
         while self._stack:
             if len(results) > self.max_paths:
                 raise Unsupported("more than %d paths" % self.max_paths)
+            if _time.time() > t_end:
+                raise Unsupported("exploration budget of %g s exceeded after %d paths" % (self.max_seconds, len(results)))
             prefix = self._stack.pop()
             self._reset_path(prefix)
             try:
@@ -172,7 +178,10 @@ class Engine:
 
     def side_oblige(self, what, goal, node=None):
         """safety side-obligation (divisor != 0, key present, index in range) on the current path"""
-        self.side.append({"what": what, "hyps": list(self.pc), "goal": goal, "line": getattr(node, "lineno", None)})
+        try: txt = ast.unparse(node)[:60] if node is not None else None
+        except Exception: txt = None
+        # 'at' identifies the site by its source text (stable under line shifts); 'line' is kept for messages
+        self.side.append({"what": what, "hyps": list(self.pc), "goal": goal, "line": getattr(node, "lineno", None), "at": txt or ("L%s" % getattr(node, "lineno", None))})
 
     def event(self, name, **kw):
         self.events.append((name, kw))
@@ -668,6 +677,14 @@ class Engine:
             if attr == "format": return Builtin("str.format", lambda e, *a, **k: "<fmt>")
             if attr in ("strip", "split", "join", "upper", "lower", "startswith", "endswith"):
                 f = getattr(base, attr)
+                if attr == "join":
+                    def join(e, items, _sep=base):
+                        items = e.iterate(items)
+                        if any(isinstance(x_, GTok) for x_ in items):
+                            if _sep.strip() != "": raise Unsupported("join of guarded tokens with a non-blank separator")
+                            return CondStr([((x_.guard, x_.item + " ") if isinstance(x_, GTok) else (z3.BoolVal(True), x_ + " ")) for x_ in items], True)
+                        return _sep.join(items)
+                    return Builtin("str.join", join)
                 return Builtin("str." + attr, lambda e, *a: f(*a))
         if isinstance(base, (dict, list, set)):
             if (attr in ("keys", "values", "items", "get", "copy", "index", "count", "tolist") or attr in MUTATORS) and hasattr(base, attr):
@@ -1026,6 +1043,12 @@ class Engine:
             if isinstance(st, ast.If):
                 if not (self._is_simple_block(st.body) and self._is_simple_block(st.orelse)): return False
                 continue
+            if isinstance(st, ast.Expr) and isinstance(st.value, ast.Call) and isinstance(st.value.func, ast.Attribute) and st.value.func.attr == "append" \
+                    and isinstance(st.value.func.value, ast.Name) and len(st.value.args) == 1 and not st.value.keywords:
+                # token_list.append(<call-free expression>) on a local python list of strings: merged as a guarded element
+                tgt = self.frames[-1].locals.get(st.value.func.value.id)
+                if isinstance(tgt, list) and all(isinstance(x_, (str, GTok)) for x_ in tgt) and not any(isinstance(n, ast.Call) for n in ast.walk(st.value.args[0])):
+                    continue
             return False
         return True
 
@@ -1060,12 +1083,24 @@ class Engine:
     def _merged_if(self, s, c):
         loc = self.frames[-1].locals
         base = dict(loc)
-        self.exec_block(s.body); a = dict(loc)
-        loc.clear(); loc.update(base)
-        self.exec_block(s.orelse); b = dict(loc)
+        toklists = {k: v for k, v in base.items() if isinstance(v, list) and all(isinstance(x_, (str, GTok)) for x_ in v)}
+        def enter():
+            loc.clear(); loc.update(base)
+            for k, v in toklists.items(): loc[k] = list(v)          # appends inside a branch go to a private copy
+        enter(); self.exec_block(s.body); a = dict(loc)
+        enter(); self.exec_block(s.orelse); b = dict(loc)
         loc.clear(); loc.update(base)
         for k in set(a) | set(b):
             va, vb = a.get(k, _MISSING), b.get(k, _MISSING)
+            if k in toklists and isinstance(va, list) and isinstance(vb, list):
+                n0 = len(toklists[k])
+                if va[:n0] != toklists[k] or vb[:n0] != toklists[k]: raise Unsupported("token list %s rewritten inside a merged branch" % k)
+                if len(va) == n0 and len(vb) == n0: loc[k] = toklists[k]; continue
+                wrap = lambda g, x_: GTok(z3.And(g, x_.guard), x_.item) if isinstance(x_, GTok) else GTok(g, x_)
+                merged = toklists[k]
+                merged.extend([wrap(c, x_) for x_ in va[n0:]] + [wrap(z3.Not(c), x_) for x_ in vb[n0:]])      # the list object itself is extended (aliases see it)
+                loc[k] = merged
+                continue
             if va is vb:
                 if va is not _MISSING: loc[k] = va
                 continue
